@@ -45,7 +45,7 @@ AllOps(n) == [x : SUBSET (0..n-1), z : SUBSET (0..n-1)]
 Cols(a, n) == a.x \cup { n + q : q \in a.z }
 FromCols(c, n) == Op({ q \in c : q < n }, { q - n : q \in { r \in c : r >= n } })
 
-Range(s) == { s[i] : i \in DOMAIN s }
+RangeOf(s) == { s[i] : i \in DOMAIN s }
 
 (***************************************************************************)
 (* GF(2) rank of a set of vectors, each given as the set of its 1-columns. *)
@@ -65,6 +65,26 @@ RankOps(ops, n) == RankOfSets({ Cols(a, n) : a \in ops })
 
 \* v (a set of columns) lies in the GF(2) span of the rows R.
 InSpan(v, R) == RankOfSets(R \cup {v}) = RankOfSets(R)
+
+
+(***************************************************************************)
+(* Echelon basis (a sequence of <<pivot, row>>) for repeated membership    *)
+(* tests: row j does not contain the pivots of rows 1..j-1.                *)
+(***************************************************************************)
+RECURSIVE ReduceBy(_, _, _)
+ReduceBy(v, basis, j) ==
+    IF j > Len(basis) THEN v
+    ELSE ReduceBy(IF basis[j][1] \in v THEN SDiff(v, basis[j][2]) ELSE v, basis, j + 1)
+
+RECURSIVE EchelonAcc(_, _)
+EchelonAcc(S, basis) ==
+    IF S = {} THEN basis
+    ELSE LET r == CHOOSE r \in S : TRUE
+             v == ReduceBy(r, basis, 1)
+         IN IF v = {} THEN EchelonAcc(S \ {r}, basis)
+            ELSE EchelonAcc(S \ {r}, Append(basis, <<CHOOSE p \in v : TRUE, v>>))
+Echelon(R) == EchelonAcc(R, <<>>)
+InSpanOf(v, basis) == ReduceBy(v, basis, 1) = {}
 
 (***************************************************************************)
 (* Stabilizer codes.  A code is a record                                   *)
@@ -94,7 +114,7 @@ RECURSIVE Closure(_, _)
 Closure(G, gens) ==
     LET G2 == G \cup { Mul(g, h) : g \in G, h \in gens } IN
     IF G2 = G THEN G ELSE Closure(G2, gens)
-StabGroup(c) == Closure({IdOp}, Range(c.stabs))
+StabGroup(c) == Closure({IdOp}, RangeOf(c.stabs))
 
 (***************************************************************************)
 (* C01: the conditions that make (stabs, lx, lz) an [[n,k]] code.  Each    *)
